@@ -1,0 +1,35 @@
+//! Verification hooks (compiled only with `--cfg selen_verif`).
+//!
+//! Thread-local switches consulted by a few `#[cfg(selen_verif)]` lines elsewhere in the crate.
+//! With the cfg off this module does not exist and none of those lines are compiled.
+use std::cell::Cell;
+
+thread_local! {
+    static ROOT_LP_DISABLED: Cell<bool> = const { Cell::new(false) };
+    static FAST_PATH_DISABLED: Cell<bool> = const { Cell::new(false) };
+    static AGENDA_SEED: Cell<Option<u64>> = const { Cell::new(None) };
+    static AGENDA_STEP: Cell<u64> = const { Cell::new(0) };
+}
+
+/// Skip the root LP relaxation step of `search_with_timeout_and_memory`.
+pub fn set_root_lp_disabled(v: bool) { ROOT_LP_DISABLED.with(|c| c.set(v)); }
+pub fn root_lp_disabled() -> bool { ROOT_LP_DISABLED.with(|c| c.get()) }
+
+/// Make `try_optimization_minimize/maximize` fall back to search.
+pub fn set_fast_path_disabled(v: bool) { FAST_PATH_DISABLED.with(|c| c.set(v)); }
+pub fn fast_path_disabled() -> bool { FAST_PATH_DISABLED.with(|c| c.get()) }
+
+/// When set, `Agenda::pop` removes the element at index `lcg(seed, step) % len` instead of the front.
+pub fn set_agenda_seed(seed: Option<u64>) {
+    AGENDA_SEED.with(|c| c.set(seed));
+    AGENDA_STEP.with(|c| c.set(0));
+}
+
+/// Index to pop from a queue of length `len` (> 0); `None` = unperturbed FIFO order.
+pub fn agenda_pick(len: usize) -> Option<usize> {
+    let seed = AGENDA_SEED.with(|c| c.get())?;
+    let step = AGENDA_STEP.with(|c| { let s = c.get(); c.set(s + 1); s });
+    // 31-bit LCG step, reproduced by the Coq model (Model/Sched.v)
+    let x = (seed.wrapping_add(step)).wrapping_mul(1103515245).wrapping_add(12345) % 2147483648;
+    Some((x % (len as u64)) as usize)
+}
